@@ -367,6 +367,19 @@ def m_opt_closure(ctx):
     if kind == 'map_or_else':
         return ctx.forks([(s_, run(ctx.args[2], (p,), lambda x: x)), (Not(s_), run(ctx.args[1], (), lambda x: x))])
     return NotImplemented
+def _k_goiw(eng, st, fr, kd, rv):
+    dst, tgt, r = kd
+    from .mir import parse_place
+    eng.write_ref(st, r, some(rv)); eng.store(st, fr, parse_place(dst), Ref(r.base, tuple(r.path) + (('v', 'Some'), 0))); return eng.jump(st, fr, tgt)
+@model(r'^(?:std::option::)?Option::<.*>::get_or_insert_with::<.*>$')
+def m_opt_get_or_insert_with(ctx):
+    r = ctx.args[0]
+    if not isinstance(r, Ref): raise EngineError('get_or_insert_with on a non-reference')
+    s_, p = opt_parts(ctx, r); eng = ctx.eng; dst = ctx.dst; tgt = ctx.tgt; clo = ctx.args[1]
+    def act(st2, fr2):
+        from .containers import call_closure
+        return call_closure(eng, st2, fr2, clo, (), _k_goiw, (dst, tgt, r))
+    return ctx.forks([(s_, Ref(r.base, tuple(r.path) + (('v', 'Some'), 0))), (Not(s_), act)])
 @model(r'^(?:std::result::)?Result::<.*>::(map|map_err|and_then|unwrap_or_else|or_else)::<.*>$')
 def m_res_closure(ctx):
     kind = re.search(r'::(map|map_err|and_then|unwrap_or_else|or_else)::<', ctx.callee).group(1)
@@ -424,7 +437,7 @@ def m_int_maxmin(ctx):
 
 NOISE = (r'^(?:core::fmt::|std::fmt::)?(?:rt::)?Arguments::<.*>::(?:new|new_const|new_v1|new_v1_formatted|from_str)(?:::<.*>)?$|^(?:core::fmt::rt::|std::fmt::rt::)?Argument::<.*>::new_\w+(?:::<.*>)?$'
          r'|^(?:alloc::fmt::|std::fmt::)?format$|^alloc::fmt::format::format_inner$|^(?:std::fmt::)?format::\{.*$|^must_use::<.*>$|^std::hint::must_use::<.*>$|^core::hint::must_use::<.*>$'
-         r'|^anyhow::[^<].*$|^<anyhow::Error as From<.*>>::from$'
+         r'|^anyhow::[^<].*$|^<anyhow::Error as From<.*>>::from$|^<.* as Into<anyhow::Error>>::into$'
          r'|^log::__private_api::\w+(?:::<.*>)?$|^(?:log::)?max_level$|^log::__private_api::loc$|^(?:log::)?__private_api::\w+(?:::<.*>)?$')
 @model(NOISE)
 def m_noise(ctx):
